@@ -419,7 +419,18 @@ def run(ctx):
         if ctx.out_of_time():
             ctx.notes.append('time budget reached after %d histories' % n)
             break
-        tw, case = run_one(ctx, rng, n, 'histories')
+        try:
+            tw, case = run_one(ctx, rng, n, 'histories')
+        except Exception as e:  # noqa: BLE001
+            # the harness could not read the object's tables back (they no longer have the form the implementation's
+            # own code gives them): the correspondence cannot be established on this history -- reported with the
+            # history as the replay; later histories still run (the content oracle usually shows the effect)
+            import traceback
+            ctx.mismatch('history', {'rng_stream': 'histories', 'history_index': n, 'seed': ctx.seed, 'tier': ctx.tier},
+                         {'what': 'state of the implementation cannot be read back by the harness',
+                          'exception': repr(e)[:300], 'where': traceback.format_exc().strip().split('\n')[-3:]})
+            ctx.evaluated(('histories', n, 'unreadable'))
+            continue
         if ctx.model_available:
             batch.append((tw, case))
         if len(batch) >= 40:
@@ -467,7 +478,13 @@ def replay(ctx, case):
         known_finding_stream(ctx)
         return {'reproducer': case['reproducer']}
     for n in range(case['history_index'] + 1):
-        tw, kinds = gen_history(rng, case.get('tier', 'quick'), case.get('rng_stream') == 'collide')
+        try:
+            tw, kinds = gen_history(rng, case.get('tier', 'quick'), case.get('rng_stream') == 'collide')
+        except Exception as e:  # noqa: BLE001
+            if n == case['history_index']:
+                ctx.mismatch('history', case, {'what': 'state of the implementation cannot be read back by the harness',
+                                               'exception': repr(e)[:300]})
+                return {'exception': repr(e)[:300]}
     res = {'kinds': kinds, 'twin_diffs': tw.twin_diffs[:3]}
     for d in tw.twin_diffs[:1]:
         ctx.fail('C06/twin', case, d)
